@@ -330,4 +330,9 @@ func FuzzMessage(f *testing.F) {
 	})
 }
 
+// Concurrent decoding / display of independent messages must give each its own exact result.
+var propParallel = stats.ParallelProp(R, "parallel", gen1, check, 6)
+
+func TestParallel(t *testing.T) { rapid.Check(t, propParallel) }
+
 func TestReplay(t *testing.T) { R.Replay(t) }
